@@ -3,6 +3,7 @@ package main
 import (
 	"encoding/json"
 	"os"
+	"strings"
 )
 
 // KnownFinding is one entry of /verif/known_findings.json (read-only at run time).
@@ -36,7 +37,7 @@ func loadKnown(path string) *KnownFindings {
 func (k *KnownFindings) regionsFor(prop, site string) []string {
 	var out []string
 	for _, e := range k.Entries {
-		if e.Status == "known" && e.Property == prop && e.Site == site && e.Region != "" {
+		if e.Status == "known" && e.Property == prop && siteMatch(e.Site, site) && e.Region != "" {
 			out = append(out, e.Region)
 		}
 	}
@@ -45,9 +46,17 @@ func (k *KnownFindings) regionsFor(prop, site string) []string {
 
 func (k *KnownFindings) find(prop, site, region string) *KnownFinding {
 	for i, e := range k.Entries {
-		if e.Status == "known" && e.Property == prop && e.Site == site && e.Region == region {
+		if e.Status == "known" && e.Property == prop && siteMatch(e.Site, site) && e.Region == region {
 			return &k.Entries[i]
 		}
 	}
 	return nil
+}
+
+// siteMatch: exact, or a trailing * in the listed site matches any suffix.
+func siteMatch(pattern, site string) bool {
+	if strings.HasSuffix(pattern, "*") {
+		return strings.HasPrefix(site, strings.TrimSuffix(pattern, "*"))
+	}
+	return pattern == site
 }
